@@ -69,7 +69,40 @@ func ruleGroupSpawn(c *Ctx, r *R) {
 	}
 	isCtxErr := func(v ssa.Value) bool {
 		ec, ok := v.(*ssa.Call)
-		return ok && ec.Call.IsInvoke() && ec.Call.Method.Name() == "Err" && isContextType(ec.Call.Value.Type()) && len(valueProv(ec.Call.Value, provEnv{}).fields) >= 1
+		if !ok || !ec.Call.IsInvoke() || ec.Call.Method.Name() != "Err" || !isContextType(ec.Call.Value.Type()) {
+			return false
+		}
+		if len(valueProv(ec.Call.Value, provEnv{}).fields) >= 1 {
+			return true
+		}
+		// the context arrives as a parameter of a helper (r.enter(g.ctx)): what its callers pass is the field
+		var viaParam func(v ssa.Value, d int) bool
+		viaParam = func(v ssa.Value, d int) bool {
+			if len(valueProv(v, provEnv{}).fields) >= 1 {
+				return true
+			}
+			prm, isP := v.(*ssa.Parameter)
+			if !isP || d > 2 || prm.Parent() == nil || prm.Parent().Parent() != nil || token.IsExported(prm.Parent().Name()) {
+				return false
+			}
+			idx := -1
+			for i, q := range prm.Parent().Params {
+				if q == prm {
+					idx = i
+				}
+			}
+			sites := callCommonsOf(c, prm.Parent())
+			if idx < 0 || len(sites) == 0 {
+				return false
+			}
+			for _, cc := range sites {
+				if idx >= len(cc.Args) || !viaParam(cc.Args[idx], d+1) {
+					return false
+				}
+			}
+			return true
+		}
+		return viaParam(ec.Call.Value, 0)
 	}
 	isAdd := func(in ssa.Instruction) *ssa.Call {
 		if call, ok := in.(*ssa.Call); ok {
@@ -213,8 +246,12 @@ func ruleGroupSpawn(c *Ctx, r *R) {
 			if ct, isCT := v.(*ssa.ChangeType); isCT {
 				v = ct.X
 			}
-			if strings.HasSuffix(path(v), ".cancel") && deepLocks(st, di)["g.m"] == 'W' {
-				okC = true
+			if strings.HasSuffix(path(v), ".cancel") {
+				for lk, mode := range deepLocks(st, di) {
+					if isGroupMu(lk) && mode == 'W' {
+						okC = true
+					}
+				}
 			}
 		}
 		r.ok(okC, "xsync.Group.Stop|cancel-under-write-lock", st.Pos(), "cancel() must be called holding g.m for writing so that no spawn is between its stopped-check and wg.Add")
@@ -363,11 +400,39 @@ func ruleGroupNoRunAfterStop(c *Ctx, r *R) {
 		// has a g.ctx.Done() arm) through another arm, bit2 = came through the g.ctx.Done() arm. Reset by each run of f.
 		pkg := rootFn(w).Pkg
 		pf := &PF{N: 8, DeepVisit: true, InScope: func(f *ssa.Function) bool {
-			return rootFn(f).Pkg == pkg && f.Blocks != nil && f != w && f.Name() != "spawn" && !isUserAdaptor(f)
+			return (rootFn(f).Pkg == pkg || ctxBlockingHelper(c, origin(f))) && f.Blocks != nil && f != w && f.Name() != "spawn" && !isUserAdaptor(f)
 		}}
 		var isGroupCtx func(v ssa.Value) bool
 		isGroupCtx = func(v ssa.Value) bool {
 			for _, lf := range valueLeaves(v, nil, 0) {
+				// the context parameter of a module helper the worker waits in (chans.RecvContext(g.ctx, c)): what the worker
+				// (its literals included) passes there
+				if prm, ok := lf.v.(*ssa.Parameter); ok && prm.Parent() != nil && prm.Parent().Parent() == nil && rootFn(prm.Parent()).Pkg != pkg {
+					idx := -1
+					for i, q := range prm.Parent().Params {
+						if q == prm {
+							idx = i
+						}
+					}
+					n := 0
+					okAll := true
+					for _, g := range withAnon(rootFn(w)) {
+						instrs(g, func(_ *ssa.BasicBlock, _ int, in ssa.Instruction) {
+							if cc := callCommon(in); cc != nil {
+								if cal := staticCallee(cc); cal != nil && origin(cal) == origin(prm.Parent()) && idx >= 0 && idx < len(cc.Args) {
+									n++
+									if !isGroupCtx(cc.Args[idx]) {
+										okAll = false
+									}
+								}
+							}
+						})
+					}
+					if n == 0 || !okAll {
+						return false
+					}
+					continue
+				}
 				// the worker literal is handed the context by the launcher (g.spawn(func(ctx context.Context) {...}) with
 				// spawn calling f(g.ctx)): what the launcher passes
 				if prm, ok := lf.v.(*ssa.Parameter); ok && prm.Parent() != nil && prm.Parent().Parent() != nil {
